@@ -20,6 +20,23 @@ class Deadlock(Exception):
     """No task is runnable, no timer is pending and nothing external can wake the loop."""
 
 
+def _task_dump(loop: "VLoop") -> str:
+    """where every pending task is parked (innermost frames), for Deadlock messages"""
+    import asyncio as _a
+
+    out = []
+    try:
+        for t in _a.all_tasks(loop):
+            if t.done():
+                continue
+            frames = t.get_stack(limit=3)
+            where = " <- ".join(f"{f.f_code.co_filename.rsplit('/', 1)[-1]}:{f.f_lineno}:{f.f_code.co_name}" for f in reversed(frames))
+            out.append(f"{t.get_name()}@{where}")
+    except Exception as exc:  # noqa: BLE001
+        return f" [task dump failed: {exc}]"
+    return " | parked: " + "; ".join(sorted(out)[:8])
+
+
 class _VSelector(selectors.DefaultSelector):  # type: ignore[misc,valid-type]
     """real selector polled with timeout 0; virtual waiting is done by the loop"""
 
@@ -64,7 +81,7 @@ class _VSelector(selectors.DefaultSelector):  # type: ignore[misc,valid-type]
             events = super().select(loop.real_wait_s)
             if events:
                 return events
-        raise Deadlock("no runnable task, no pending timer, nothing external registered")
+        raise Deadlock("no runnable task, no pending timer, nothing external registered" + _task_dump(loop))
 
 
 class VLoop(asyncio.SelectorEventLoop):
